@@ -100,4 +100,89 @@ theorem F113_after :
     (run cwEx t1 (renderFrameS cwEx (frameB (renderFrameS cwEx frameA).1)).2).bad = none := by
   decide
 
+/-! ### Screens WITH image cells: the full statement (open) and what is proved
+
+A cell flagged `sixel` lies under an image: the cell loop does not draw it and what the terminal
+shows there is painted by the image bytes, which this renderer model does not have — "unknown
+pixels".  The display clause for such screens can therefore only speak about the other positions.
+`frame_displays_images_full` is that statement (it is what the correspondence oracle evaluates on
+the real bytes for every frame with image cells: `Driver.C01.sixelDontCare`); it is NOT proved.
+Proved: the sixel-free instance (`frame_displays_current`), the behaviour of the loop at an image
+cell (`sixel_cell_not_drawn`, `dropped_image_rewritten`), and concrete instances (below, `decide`).
+Missing for the general proof: the row invariant of `Lemmas/RenderDisplay.renderCells_display`
+(terminal row = parse `V`, `Agree` between frames) with a don't-care mask at image positions. -/
+
+/-- "Unknown pixels": the positions of image cells that are not covered by a wide glyph to their
+    left (a covered one is expected to show that glyph's continuation, as everywhere). -/
+def unknownPixels (cw : String → Nat) (caps : Caps) (next : Grid) (r c : Nat) : Bool :=
+  match next[r]? with
+  | some row =>
+    (match row[c]? with | some cell => cell.sixel | none => false) &&
+    (match (Expected.expectedRowC cw caps 0 row)[c]? with | some DCell.cont => false | _ => true)
+  | none => false
+
+/-- The terminal shows the application's screen wherever the pixels are not the image's. -/
+def ShowsOutsideImages (cw : String → Nat) (caps : Caps) (next : Grid) (grid : List (List DCell)) : Prop :=
+  ∀ r c, unknownPixels cw caps next r c = false →
+    (grid[r]?.bind (·[c]?)) = ((Expected.expectedC cw caps next)[r]?.bind (·[c]?))
+
+instance (cw : String → Nat) (caps : Caps) (next : Grid) (grid : List (List DCell)) (R C : Nat) :
+    Decidable (∀ r, r < R → ∀ c, c < C → unknownPixels cw caps next r c = false →
+      (grid[r]?.bind (·[c]?)) = ((Expected.expectedC cw caps next)[r]?.bind (·[c]?))) := by
+  infer_instance
+
+/-- **The display clause for screens with image cells — full statement, open.** -/
+def frame_displays_images_full : Prop :=
+  ∀ (cw : String → Nat) (f : Frame) (t : Term),
+    Rest t → t.bad = none →
+    t.grid.length = f.next.length → f.last.length = f.next.length →
+    (∀ r ∈ t.grid, r.length = t.cols) → (∀ r ∈ f.next, r.length = t.cols) →
+    (∀ r ∈ f.last, r.length = t.cols) → t.rows = f.next.length →
+    (∀ r ∈ f.next, ∀ c ∈ r, 0 ≤ c.w ∧ WidthOk cw f.caps c) →
+    (f.refresh = false → Agree cw f.caps t f.last) →
+    cw "20" = 1 →
+    (f.refresh = true → ∀ r ∈ t.grid, WFRow 0 r) →
+    (f.cursorNext.visible = true →
+      (0 ≤ f.cursorNext.row ∧ f.cursorNext.row < t.rows) ∧ (0 ≤ f.cursorNext.col ∧ f.cursorNext.col < t.cols)) →
+    t.linkParams = "" →
+    (run cw t (renderFrameS cw f).2).bad = none ∧
+    ShowsOutsideImages cw f.caps f.next (run cw t (renderFrameS cw f).2).grid
+
+/-- The proved part: without image cells `ShowsOutsideImages` is `grid = expectedC` and holds. -/
+theorem frame_displays_images_partial (cw : String → Nat) (f : Frame) (t : Term)
+    (hrest : Rest t) (hbad : t.bad = none)
+    (hlen : t.grid.length = f.next.length) (hlast : f.last.length = f.next.length)
+    (hgc : ∀ r ∈ t.grid, r.length = t.cols) (hnc : ∀ r ∈ f.next, r.length = t.cols)
+    (hlc : ∀ r ∈ f.last, r.length = t.cols) (hrows : t.rows = f.next.length)
+    (hcells : ∀ r ∈ f.next, ∀ c ∈ r, c.sixel = false ∧ 0 ≤ c.w ∧ WidthOk cw f.caps c)
+    (hagree : f.refresh = false → Agree cw f.caps t f.last)
+    (hsp : cw "20" = 1)
+    (hwf : f.refresh = true → ∀ r ∈ t.grid, WFRow 0 r)
+    (hcur : f.cursorNext.visible = true →
+      (0 ≤ f.cursorNext.row ∧ f.cursorNext.row < t.rows) ∧ (0 ≤ f.cursorNext.col ∧ f.cursorNext.col < t.cols))
+    (hlp : t.linkParams = "") :
+    (run cw t (renderFrameS cw f).2).bad = none ∧
+    ShowsOutsideImages cw f.caps f.next (run cw t (renderFrameS cw f).2).grid := by
+  obtain ⟨h1, h2, _⟩ := frame_displays_current cw f t hrest hbad hlen hlast hgc hnc hlc hrows hcells hagree hsp hwf hcur hlp
+  exact ⟨h1, fun r c _ => by rw [h2]⟩
+
+/-- Concrete instances of the full statement's conclusion with image cells (decide): the F113
+    frames (a wide glyph, then an image cell over its left half), and an image cell between two
+    glyphs on a refresh — the positions outside the image show the application's screen. -/
+example :
+    let t1 := run cwEx (Term.init 2 1) (renderFrameS cwEx frameA).2
+    let fB := frameB (renderFrameS cwEx frameA).1
+    let t2 := run cwEx t1 (renderFrameS cwEx fB).2
+    t2.bad = none ∧ unknownPixels cwEx {} fB.next 0 0 = true ∧ unknownPixels cwEx {} fB.next 0 1 = false ∧
+    (∀ r, r < 1 → ∀ c, c < 2 → unknownPixels cwEx {} fB.next r c = false →
+      (t2.grid[r]?.bind (·[c]?)) = ((Expected.expectedC cwEx {} fB.next)[r]?.bind (·[c]?))) := by decide
+
+example :
+    let f : Frame := { caps := {}, refresh := true, next := [[({ g := "61" } : Cell), { sixel := true }, { g := "f09f94a5" }, {}]],
+                       last := [[({} : Cell), {}, {}, {}]], cursorNext := {}, cursorLast := {} }
+    let t := run cwEx (Term.init 4 1) (renderFrameS cwEx f).2
+    t.bad = none ∧
+    (∀ r, r < 1 → ∀ c, c < 4 → unknownPixels cwEx {} f.next r c = false →
+      (t.grid[r]?.bind (·[c]?)) = ((Expected.expectedC cwEx {} f.next)[r]?.bind (·[c]?))) := by decide
+
 end VaxisModel.Props.C01Sixel
